@@ -190,6 +190,8 @@ def shard(sh):
         from vlib import e3_simkernel as e3
         rng = rng_for(sh["seed"], "c11", sh["sub"])
         for i in range(sh["n"]):
+            if run.enough():
+                break
             sc = gen_scenario(rng)
             for j in range(sh["schedules"]):
                 parts = [sh["seed"], "c11sched", sh["sub"], i, j]
